@@ -133,8 +133,19 @@ def checkCall (src f : Nat) (rs : List Res) (c : Call) (impl : String) : Bool :=
       decide ((bs.filterMap (·.head?.map (·.2.dest))).eraseDups.length = bs.length) &&
       checkBlockR c.height f rs c.txs bs.flatten
 
-/-- unparsable arguments (e.g. produced by the runner's shrinking of a structured argument) carry no property claim -/
-def badArgs : Verdict := ⟨"BADARGS", true, "badargs"⟩
+/-- do the runs `a+n` spell exactly start, start+1, …, start+cnt-1 (any `none*n` / `err*n` run: no) -/
+def creditedAre (start cnt : Nat) (runs : List String) : Bool :=
+  let r := runs.foldl (fun (acc : Option Nat) run =>
+    acc.bind fun next =>
+      match run.splitOn "+" with
+      | [a, n] => match a.toNat?, n.toNat? with
+        | some a, some n => if a = next ∧ 0 < n then some (next + n) else none
+        | _, _ => none
+      | _ => none) (some start)
+  r == some (start + cnt)
+
+/-- unparsable arguments (the runner rejects BADARGS candidates when it shrinks a structured argument) -/
+def badArgs : Verdict := ⟨"BADARGS", false, "badargs"⟩
 
 def handle (op : String) (args : List String) (impl : String) : Option Verdict :=
   match op, args with
@@ -150,7 +161,13 @@ def handle (op : String) (args : List String) (impl : String) : Option Verdict :
     let kind := match m with | .err => "err" | .panic => "panic" | .notDeposit => "none" | .deposit _ _ => "dep"
     let tag := s!"decode:{kind}:n={min vs.length 4}:wf={WF vs}:bridge={paysBridge b vs}:trunc-differs={vs.any (fun v => truncDiffers v.sats)}"
     return ⟨showDec m, ok, tag⟩
-  | "convrange", [_, _, mode] => some ⟨"0", impl == "0", s!"convrange:{mode}"⟩
+  | "convrange", [start, cnt, mode] => some <| Id.run do
+    let some start := start.toNat? | return badArgs
+    let some cnt := cnt.toNat? | return badArgs
+    -- impl = run-length encoding of the amounts the real code credited for d = start … start+cnt-1 (`a+n` = a, a+1, …, a+n-1);
+    -- property: the d-th credited amount is d — evaluated here on the decoded sequence
+    let ok := creditedAre start cnt (items impl ",")
+    return ⟨if cnt = 0 then "-" else s!"{start}+{cnt}", ok, s!"convrange:{mode}"⟩
   | "handle", [src, nonce, blk, amt, data] => some <| Id.run do
     let some src := src.toNat? | return badArgs
     let some nonce := nonce.toNat? | return badArgs
@@ -172,9 +189,9 @@ def handle (op : String) (args : List String) (impl : String) : Option Verdict :
   | "nonce", [h, tx] => some <| Id.run do
     let some h := h.toNat? | return badArgs
     let some tx := fromHex tx | return badArgs
-    -- property: a value was produced and it is the same for handlers with different state (checked by the op itself);
-    -- the model additionally pins the function
-    let ok := match impl.toNat? with | some n => decide (n < 2 ^ 64) | none => false
+    -- property: the value is calculateNonce(height, tx hash) — a function of those two alone (the op also runs handlers
+    -- with different state and prints `nondeterministic` if they disagree)
+    let ok := impl.toNat? == some (calculateNonce h tx)
     return ⟨toString (calculateNonce h tx), ok, s!"nonce:len={min tx.length 64}"⟩
   | "sha", [m] => some <| Id.run do
     let some m := fromHex m | return badArgs
